@@ -90,11 +90,37 @@ Theorem free_restores_refuted_for_empty_workgroup :
     reserve (init_cu c) k d = Ret s1 (Some locs) /\ free s1 k = Some s2 /\
     lmask s2 <> lmask (init_cu c).
 Proof.
-  exists (mkCfg 16 256 [(256, 1)%N]), (1, 0)%N, (mkDemand 0 0 0 256).
+  exists (mkCfg 16 256 [(256, 1)%N]), (1, 0)%N, (mkDemand 0 0 0 256 0).
   eexists. eexists. eexists. split; [vm_compute; reflexivity|]. split; [vm_compute; reflexivity|].
   vm_compute. discriminate.
 Qed.
 Print Assumptions free_restores_refuted_for_empty_workgroup.
+
+(** Conservation, with the LDS size requested by the dispatch packet as a field
+    of the demand ([d_dyn], including dynamically sized LDS): whatever the
+    dynamic sizes were, once every work-group has been freed the masks and the
+    free-slot counts of the CU are the initial ones ... *)
+Theorem resources_conserved : forall c h s,
+  Forall op_ok h -> Resource.run (init_cu c) h = Some s -> resident s = [] ->
+  smask s = smask (init_cu c) /\ lmask s = lmask (init_cu c) /\ simds s = simds (init_cu c).
+Proof.
+  intros c h s Hh Hr He. exact (conserved_when_empty c s (resources_disjoint_inv c h s Hh Hr) He).
+Qed.
+Print Assumptions resources_conserved.
+
+(** ... and the dynamic size plays no role in what is reserved: the command
+    processor accounts for the static size on the reserve path and on the free
+    path alike. *)
+Theorem dynamic_lds_plays_no_role : forall s k d x,
+  match reserve s k d, reserve s k (with_dyn d x) with
+  | Crash, Crash => True
+  | Ret s1 r1, Ret s2 r2 =>
+    r1 = r2 /\ smask s1 = smask s2 /\ lmask s1 = lmask s2 /\ simds s1 = simds s2 /\ next_simd s1 = next_simd s2 /\
+    map fst (resident s1) = map fst (resident s2)
+  | _, _ => False
+  end.
+Proof. exact reserve_ignores_dyn. Qed.
+Print Assumptions dynamic_lds_plays_no_role.
 
 (** A reservation succeeds only into free resources: one location per
     wavefront, every SGPR/VGPR/LDS region it returns was entirely Free (and
@@ -335,8 +361,8 @@ Print Assumptions done_means_all_answered.
     after a free it fits. *)
 Definition demo_cfg : cucfg := mkCfg 64 512 [(2048, 1)%N; (2048, 2)%N].
 Definition demo_hist : list op :=
-  [OReserve (1, 0)%N (mkDemand 2 16 8 256); OReserve (1, 1)%N (mkDemand 1 17 12 200);
-   OReserve (1, 2)%N (mkDemand 1 16 4 0); OFree (1, 0)%N; OReserve (1, 2)%N (mkDemand 1 16 4 0)].
+  [OReserve (1, 0)%N (mkDemand 2 16 8 256 0); OReserve (1, 1)%N (mkDemand 1 17 12 200 4096);
+   OReserve (1, 2)%N (mkDemand 1 16 4 0 0); OFree (1, 0)%N; OReserve (1, 2)%N (mkDemand 1 16 4 0 0)].
 Example demo_resource :
   exists s, Resource.run (init_cu demo_cfg) demo_hist = Some s /\ Forall op_ok demo_hist /\
     map fst (resident s) = [(1, 2)%N; (1, 1)%N] /\
@@ -352,8 +378,8 @@ Qed.
     completions reported out of order; both launches are answered once. *)
 Definition demo_cp_cfg : cpcfg := mkCpCfg RoundRobin 1 0 2 4096.
 Definition demo_cus : list cucfg := [mkCfg 64 512 [(1024, 1)%N]; mkCfg 64 512 [(1024, 2)%N]].
-Definition demo_l1 : launch := mkLaunch 1 [mkDemand 1 16 4 256; mkDemand 1 16 4 256; mkDemand 1 16 4 256].
-Definition demo_l2 : launch := mkLaunch 2 [mkDemand 2 8 8 0; mkDemand 1 8 8 0].
+Definition demo_l1 : launch := mkLaunch 1 [mkDemand 1 16 4 256 0; mkDemand 1 16 4 256 0; mkDemand 1 16 4 256 0].
+Definition demo_l2 : launch := mkLaunch 2 [mkDemand 2 8 8 0 1024; mkDemand 1 8 8 0 1024].
 Definition demo_evs : list ev :=
   [ELaunch demo_l1; ELaunch demo_l2; ETick; ETick; ETick; ERetrCU; ERetrCU; ERetrCU;
    EComplete [1000001%N]; ETick; ERetrCU; EComplete [1000000%N]; EComplete [1000002%N]; ETick; ETick;
